@@ -158,6 +158,9 @@ def run(chk):
     callsites(chk, repo, it, ms, md, S, D)
     # ---- R11.7 the loop closed through the real mode summation
     closed_loop(chk, repo, ms, md, S, D)
+    from .common import inplace_lint
+    inplace_lint(chk, repo, 'R11.8', ['TidalPy/dynamics/single_dissipation.py', 'TidalPy/dynamics/dual_dissipation.py', 'TidalPy/toolbox/quick_tides.py', 'TidalPy/tides/modes/mode_manipulation.py', 'TidalPy/utilities/conversions/conversions.py'])
+    chk.floor('R11.8', 5)
     chk.floor('R11.1', 4 + 18); chk.floor('R11.2', 8); chk.floor('R11.4', 4); chk.floor('R11.6', 7); chk.floor('R11.3', 4); chk.floor('R11.7', 12)
     chk.assume('masses, a, n, C > 0; 0 < e < 1 on the generic region; n^2 a^3 = G(m1+m2)')
 
